@@ -618,7 +618,8 @@ Proof.
     apply Q_W; [reflexivity|]. apply Q_app; [|repeat qstep].
     apply (Q_flat_map _ id_ok); [|assumption]. intros x Hx. apply Q_W; [reflexivity|]. apply Q_p_ident; exact Hx.
   - split_ok H. unfold p_schemaext. apply Q_W; [reflexivity|].
-    apply Q_app; [apply Q_glued_dirs; assumption|apply Q_p_rootops; assumption].
+    apply Q_app; [apply Q_glued_dirs; assumption|].
+    destruct (se_ops e); [repeat qstep|]. apply Q_p_rootops; assumption.
   - apply Q_p_typeext; exact H.
 Qed.
 
